@@ -269,3 +269,31 @@ V("C17", "study-levels", STUDY, "        imgset.tile_levels = self._tile_levels\
 V("C17", "P-fstring-path", PYR, '            "L{}X{}Y{}.{}".format(level, ix, iy, format or self._default_format),', '            f"L{level}X{ix}Y{iy}.{format or self._default_format}",', "HOLDS")
 V("C17", "P-join-flat", PYR, "        d = os.path.join(self._base_dir, level, iy)\n        if makedirs:\n            os.makedirs(d, exist_ok=True)\n        return os.path.join(\n            d, \"{}_{}.{}\".format(iy, ix, format or self._default_format)\n        )",
   "        d = os.path.join(self._base_dir, level, iy)\n        if makedirs:\n            os.makedirs(d, exist_ok=True)\n        return os.path.join(self._base_dir, level, iy, iy + \"_\" + ix + \".\" + (format or self._default_format))", "HOLDS")
+
+# ---------------------------------------------------------------- C18
+V("C18", "sentinel-first", PIPE, "                temp = filenames[-1]\n                filenames[-1] = 'index.wtml'\n                filenames[index_index] = temp", "                temp = filenames[0]\n                filenames[0] = 'index.wtml'\n                filenames[index_index] = temp", "C18.R1")
+V("C18", "rename-in-loop", PIPE, "                with open(p, 'rb') as f:\n                    self._pipeio.put_item(*sub_components[1:], source=f)\n\n            os.rename(", "                with open(p, 'rb') as f:\n                    self._pipeio.put_item(*sub_components[1:], source=f)\n\n                os.rename(", "C18.R4")
+V("C18", "swallow", PIPE, "                with open(p, 'rb') as f:\n                    self._pipeio.put_item(*sub_components[1:], source=f)\n", "                try:\n                    with open(p, 'rb') as f:\n                        self._pipeio.put_item(*sub_components[1:], source=f)\n                except Exception as e:\n                    print('warning: upload failed', e)\n", "C18.R3")
+V("C18", "sorted-after-swap", PIPE, "            for filename in filenames:\n                # Get the components", "            for filename in sorted(filenames):\n                # Get the components", "C18.R")
+V("C18", "refresh-other-name", PCLI, '        if mgr._pipeio.check_exists(uniq_id, "index.wtml"):', '        if mgr._pipeio.check_exists(uniq_id, "index_rel.wtml"):', "C18.R5")
+V("C18", "no-reorder", PIPE, "            try:\n                index_index = filenames.index('index.wtml')\n            except ValueError:\n                pass\n            else:\n                temp = filenames[-1]\n                filenames[-1] = 'index.wtml'\n                filenames[index_index] = temp\n", "", "C18.R1")
+V("C18", "swap-loses-file", PIPE, "                temp = filenames[-1]\n                filenames[-1] = 'index.wtml'\n                filenames[index_index] = temp", "                filenames[-1] = 'index.wtml'\n                filenames[index_index] = filenames[-1]", "C18.R1")
+V("C18", "rename-in-finally", PIPE, "            for filename in filenames:\n                # Get the components of the item path relative to todo_dir.\n                sub_components = [todo_dir, uniq_id, filename]\n                p = os.path.join(*sub_components)\n                assert p.startswith(pfx)\n\n                with open(p, 'rb') as f:\n                    self._pipeio.put_item(*sub_components[1:], source=f)\n\n            os.rename(os.path.join(todo_dir, uniq_id), os.path.join(done_dir, uniq_id))",
+  "            try:\n                for filename in filenames:\n                    sub_components = [todo_dir, uniq_id, filename]\n                    p = os.path.join(*sub_components)\n                    with open(p, 'rb') as f:\n                        self._pipeio.put_item(*sub_components[1:], source=f)\n            finally:\n                os.rename(os.path.join(todo_dir, uniq_id), os.path.join(done_dir, uniq_id))", "C18.R4")
+V("C18", "local-append-mode", LIO, "        with open(fpath, 'wb') as f:\n            shutil.copyfileobj(source, f)", "        with open(fpath, 'ab') as f:\n            shutil.copyfileobj(source, f)", "C18.R6")
+V("C18", "P-remove-append", PIPE, "            try:\n                index_index = filenames.index('index.wtml')\n            except ValueError:\n                pass\n            else:\n                temp = filenames[-1]\n                filenames[-1] = 'index.wtml'\n                filenames[index_index] = temp\n",
+  "            if 'index.wtml' in filenames:\n                filenames.remove('index.wtml')\n                filenames.append('index.wtml')\n", "HOLDS")
+V("C18", "P-sort-key-eq", PIPE, "            try:\n                index_index = filenames.index('index.wtml')\n            except ValueError:\n                pass\n            else:\n                temp = filenames[-1]\n                filenames[-1] = 'index.wtml'\n                filenames[index_index] = temp\n",
+  "            filenames.sort(key=lambda fn: fn == 'index.wtml')\n", "HOLDS")
+
+# ---------------------------------------------------------------- C20
+V("C20", "revert-hdu-fix", COLL, "                    hdu_index = self._hdu_index[path_index]\n                    hdu = hdul[hdu_index]", "                    hdu_index = self._hdu_index[path_index]\n                    hdu = hdul[self._hdu_index]", "C20.R1")
+V("C20", "list-first-entry", COLL, "                    hdu_index = self._hdu_index[path_index]\n                    hdu = hdul[hdu_index]", "                    hdu_index = self._hdu_index[0]\n                    hdu = hdul[hdu_index]", "C20.R1")
+V("C20", "wcs-key-list-ignored", COLL, "                    wcs_key = self._wcs_key[path_index]", "                    wcs_key = self._wcs_key[0]", "C20.R2")
+V("C20", "images-not-shared", COLL, "    def images(self):\n        return self._load(True)\n\n\nclass RubinDirectoryCollection", "    def images(self):\n        return self._load_images()\n\n\nclass RubinDirectoryCollection", "C20.R3")
+V("C20", "wcs-default-key", COLL, "            wcs = WCS(hdu.header, key=wcs_key)", "            wcs = WCS(hdu.header)", "C20.R3")
+V("C20", "load-drops-wcs-key", COLL, "    loader.hdu_index = hdu_index\n    loader.wcs_key = wcs_key\n", "    loader.hdu_index = hdu_index\n", "C20.R4")
+V("C20", "tile-fits-drops-hdu", "toasty/__init__.py", "coll = collection.load(fits, hdu_index=hdu_index, wcs_key=wcs_key, blankval=blankval)", "coll = collection.load(fits, wcs_key=wcs_key, blankval=blankval)", "C20.R4")
+V("C20", "cli-drops-hdu", "toasty/cli.py", "collection = SimpleFitsCollection(settings.paths, hdu_index=settings.hdu_index, wcs_key=settings.wcs_key)", "collection = SimpleFitsCollection(settings.paths, wcs_key=settings.wcs_key)", "C20.R4")
+V("C20", "paths-sorted", COLL, "        self._paths = list(paths)", "        self._paths = sorted(paths)", "C20.R4")
+V("C20", "P-scalar-first", COLL, "                if isinstance(self._hdu_index, int):\n                    hdu_index = self._hdu_index\n                    hdu = hdul[self._hdu_index]", "                if isinstance(self._hdu_index, int):\n                    hdu_index = self._hdu_index\n                    hdu = hdul[hdu_index]", "HOLDS")
